@@ -190,10 +190,10 @@ def run(chk: Check, eng: Engine) -> None:
     chk.rule("R06-b", "Column.states / Column.unique are mutated only inside Column, and add() appends only behind the membership test", floor=3)
     chk.rule("R06-c", "the column index of _consume increases on every path through the loop body and the table is not extended inside the loop", floor=3)
     chk.rule("R06-d", "a terminal scan that completes a match must have consumed input: the no-progress rejection (`match_length <= <already matched>` / "
-             "`match_length == 0`) is unconditional in every scanner", floor=2)
+             "`match_length == 0`) is unconditional in every scanner (armed while the item identity is not finite - the recorded finding F3; with a finite identity "
+             "a zero-width advance is admitted once and C05 / R05-a requires it)", floor=2)
     chk.not_decided += ["termination of place_repetition_shortcut's upward walk", "termination of context-rule expansion (predict_ctx_rule)",
                         "that the earliest waiting item of a column is always a proper ancestor (Earley prediction order; relied upon by R06-e)"]
-    progress_guards(chk, eng)
     chk.rule("R06-f", "every item is completed in its own turn of the driver loop over its column (armed while the item identity is not finite: then nothing else bounds a column)", floor=3)
     chk.rule("R06-e", "the walk from an item to the item that predicted it takes the *earliest* waiting item of the column (column order is prediction order)", floor=1)
     earliest_parent(chk, eng)
@@ -265,8 +265,17 @@ def run(chk: Check, eng: Engine) -> None:
         chk.bad("R06-a", file, e.line, e.fq, f"__eq__ compares {sorted(ef)} of self with {sorted(other_reads)} of other",
                 "asymmetric equality breaks set membership", keyparts="eq-asymmetric")
 
-    # R06-f --------------------------------------------------------------------
-    process_once(chk, eng, identity_is_finite=not any(v.rule == "R06-a" for v in chk.violations))
+    # R06-d / R06-f: both guard against the same thing - items of one column multiplying because their identity includes the children ------------
+    finite = not any(v.rule == "R06-a" for v in chk.violations)
+    if finite:
+        ip_ = eng.cls(f"{PMOD}.iterative_parser", "IterativeParser")
+        for nm in ("scan_regex", "scan_bytes"):
+            m_ = eng.method(ip_, nm, inherited=False)
+            chk.ok("R06-d", m_.fq, m_.line, "not armed: the item identity is finite, so an item advanced without consuming input is admitted to its column once "
+                                            "(the zero-length instances C05 / R05-a asks for are harmless then)", nontrivial=False)
+    else:
+        progress_guards(chk, eng)
+    process_once(chk, eng, identity_is_finite=finite)
 
     # R06-b --------------------------------------------------------------------
     col = eng.cls(f"{PMOD}.column", "Column")
